@@ -325,9 +325,10 @@ where
 
         let welcome_preview = self.preview_welcome(&welcome.wrapper_event_id, &welcome.event)?;
 
-        // An invitation to a group the user is already active in is not joined again (accepting the
-        // same invitation twice): into_group() replaces the stored MLS state with the state at the
-        // invitation's epoch, which would rewind the group and cut the user off from it.
+        // Only an invitation whose group record is still Pending (what process_welcome leaves) is
+        // joined: into_group() replaces the stored MLS state with the state at the invitation's
+        // epoch, which would rewind a group the user is active in (the same invitation accepted
+        // twice) and re-activate a group the user was removed from or whose invitation was declined.
         let staged_group_id: mdk_storage_traits::GroupId = welcome_preview
             .staged_welcome
             .group_context()
@@ -335,7 +336,7 @@ where
             .clone()
             .into();
         if let Some(group) = self.get_group(&staged_group_id)?
-            && group.state == group_types::GroupState::Active
+            && group.state != group_types::GroupState::Pending
         {
             return Ok(());
         }
